@@ -143,6 +143,17 @@ class C16(Monitor):
             self.cores[inch] = c
         return self.cores[inch]
 
+    def twin_core(self, inch):
+        if not hasattr(self, "twins"):
+            self.twins = {}
+        if inch not in self.twins:
+            c = Core([], {})
+            c.gcode("G28")
+            if inch:
+                c.gcode("G20")
+            self.twins[inch] = c
+        return self.twins[inch]
+
     def gen_case(self, rnd, tier, k):
         items = []
         for _ in range(self.BATCH):
@@ -258,6 +269,13 @@ class C16(Monitor):
     def check_plan(self, it, stats, v, nt):
         core = self.core(it["inch"])
         con = core.contract
+        # home offsets (M206), different for X and Y now and then: whatever they mean to the firmware, an arc must leave the tracked
+        # position where a straight move to the same end point leaves it (a second core does that move)
+        m206 = None
+        if it.get("text"):
+            hx, hy = [(0, 0), (0, 0), (5, -3), (-2.5, 7), (10, 10), (0, 4)][int(digest(it)[:4], 16) % 6]
+            m206 = "M206 X%s Y%s" % (plain(hx), plain(hy))
+            core.gcode(m206)
         x, y = self.place(core, it["sx"], it["sy"])
         r, a0 = it["r"], it["a0"]
         cx, cy = x - r * math.cos(a0), y - r * math.sin(a0)
@@ -307,6 +325,18 @@ class C16(Monitor):
                     v.append(dict(kind="arc-not-planned", idx=-1, cmd=cmd, detail="the handler did not plan the arc %r from (%r, %r) at all"
                                   % (cmd, x, y), mechanism=None))
                 return
+            if m206 is not None and it["sweep"] is not None:
+                twin = self.twin_core(it["inch"])
+                twin.gcode(m206)
+                twin.gcode("G0 X%s Y%s" % (plain(it["sx"]), plain(it["sy"])))
+                twin.gcode("G1 X%s Y%s" % (words[0][1:], words[1][1:]))
+                pa, pb = core.state.position, twin.state.position
+                stats["arc_end_vs_linear_move_compared"] += 1
+                if abs(pa.X_AXIS.current - pb.X_AXIS.current) > 1e-9 or abs(pa.Y_AXIS.current - pb.Y_AXIS.current) > 1e-9:
+                    v.append(dict(kind="arc-end-tracked-elsewhere", idx=-1, cmd="%s ; %s" % (m206, cmd), mechanism=None,
+                                  detail="after the arc the tracked position is (%r, %r); after a straight move to the same end point "
+                                         "it is (%r, %r)" % (pa.X_AXIS.current, pa.Y_AXIS.current, pb.X_AXIS.current, pb.Y_AXIS.current)))
+                    return
             got = con.last_args
             if got[4] != want[4] or any(abs(a - b) > 1e-9 * max(1.0, abs(b)) for a, b in zip(got[:4], want[:4])):
                 v.append(dict(kind="handler-planned-a-different-arc", idx=-1, cmd=cmd, mechanism=None,
